@@ -249,6 +249,9 @@ typedef struct {
 } sim_cfg_t;
 static sim_cfg_t sim_cfg;
 
+static unsigned app_srv_ever_mask; /* servers ever configured in this case */
+static int      ck_epoch;  /* configuration epoch (server-list changes, completed reinits): cache monitor */
+static int      app_dnsrec_flags_from_aiflags; /* cache profile: RD/CD of raw dnsrec requests come from ai_flags */
 static vh_rng_t sim_rng;   /* scheduler / network randomness */
 static vh_rng_t seg_rng;   /* transport chopping only (so that A/B runs draw the same sim_rng sequence) */
 static int      sim_no_subms_jitter; /* fixed server delays (A/B differential) */
